@@ -243,6 +243,29 @@ def fn_expr(codes):
     return (mixes, (skipped,), viols, nex)
 
 
+RAW_KIDS = [["T", "a<b && c"], ["H", "x&&y</p>"], ["N", 3], ["T", ""], ["H", ""], ["T", "l1\nl2"]]
+
+
+def fn_rawtext(case):
+    """script/style with every short child sequence: compared with the reference layout (absolute,
+    not differential): text and HTML() children verbatim, nothing else escaped or added."""
+    from ..ref.layout import ref_render_tag
+    from ..spec import build
+    name, ws, kids, cfg = case
+    spec = ["E", name, ws, [["type", "t/x"]] if len(kids) % 2 else [], kids]
+    got = build(spec).get_html_string(*cfg)
+    exp = ref_render_tag(spec, *cfg)
+    viols = []
+    if got != exp:
+        viols.append((f"raw-text:{name}", f"<{name} ws={ws}> with children {kids} renders wrongly for {cfg}",
+                      {"observed": got, "expected": exp}))
+    in_div = build(["E", "div", True, [], [["T", "t<"], spec, ["H", "<hr>"]]]).get_html_string(*cfg)
+    exp2 = ref_render_tag(["E", "div", True, [], [["T", "t<"], spec, ["H", "<hr>"]]], *cfg)
+    if in_div != exp2 and not viols:
+        viols.append((f"raw-text-nested:{name}", f"<{name}> inside a div renders wrongly", {"observed": in_div, "expected": exp2}))
+    return (any(k[0] == "H" for k in kids), got, viols, 2)
+
+
 LONG_UNITS = ["<b>&amp;\"x\"</b>", "a&b<c>d ", "é<!--&-->"]
 
 
@@ -281,6 +304,11 @@ def plan(tier):
     return [
         dict(kind="space", name="verbatim-markup", space=Seq(Const(TOKENS), 0, k), fn=fn_markup,
              note=f"all strings of <= {k} tokens over {TOKENS!r} x {len(_contexts())} contexts"),
+        dict(kind="space", name="raw-text-absolute", fn=fn_rawtext,
+             space=Prod(Const(["script", "style"]), Const([True, False]), Seq(Const(RAW_KIDS), 0, 3),
+                        Const([(0, "\n"), (1, "\r\n")])),
+             note="script/style x ws flag x every sequence of <= 3 children over {text, HTML(), number, empty, "
+                  "multi-line} x 2 (indent, eol): byte equality with the reference layout"),
         dict(kind="space", name="long-string-history", fn=fn_long,
              space=Prod(Const(LONG_UNITS), Const([1, 31, 32, 63, 64, 65, 127, 128, 129, 255, 256, 257, 1000, 4096, 70000]),
                         Const(["plain-first", "html-first", "multi-first"])),
